@@ -1,6 +1,6 @@
 (* Ctlog/PubCoverStep.v — every event but tampering preserves the invariant of Ctlog/PubCover.v,
    given the earlier invariant layers and at most one live instance. *)
-From SL Require Import Base.BytesProofs Merkle.TilesProofs Ctlog.Model Ctlog.Spec Ctlog.Inv Ctlog.InvStep
+From SL Require Import Base.BytesProofs Merkle.TilesProofs Ctlog.Model Ctlog.Recompute Ctlog.Spec Ctlog.Inv Ctlog.InvStep
   Ctlog.Inv2 Ctlog.Inv2Step Ctlog.PubMono Ctlog.Solo Ctlog.Inv3 Ctlog.Inv3Step Ctlog.PubCover.
 From Coq Require Import ZifyN ZifyNat ZifyBool.
 Open Scope N_scope.
@@ -465,6 +465,16 @@ Proof.
     + cbn [i_pc i_tree]. intro Hd. eapply K1; eauto.
     + cbn [i_cache]. intros k idx ts Hin. eapply K2; [exact G|]. eapply in_firstn; eauto.
   - (* tampering *) destruct NT.
+  - (* recompute-cache: new rows name indexes below the size of the published checkpoint *)
+    destruct (get_inst (w_insts w) i) as [x|] eqn:G; [|exact HP].
+    destruct (step_recompute_spec sha w i x key lim) as [E|(p & ls & c1 & why & Hpub & Hh & Hl & E)]; rewrite E; [exact HP|].
+    eapply PInv_upd with (i := i) (e := []);
+      [exact HP | reflexivity | rewrite app_nil_r; reflexivity | reflexivity | | | | intros a Hin; left; exact Hin].
+    + eapply inst4_core; [| |exact (I4 _ _ G)]; reflexivity.
+    + cbn [i_pc i_tree set_cache]. intro Hd. eapply K1; eauto.
+    + cbn [i_cache set_cache]. intros k idx ts Hin.
+      destruct (rc_loop_in sha _ _ _ _ _ _ _ _ _ _ _ _ Hl Hin) as [H|H]; [eapply K2; eauto|].
+      exists p. split; [exact Hpub|]. pose proof (rc_top_le (cp_size p)). lia.
 Qed.
 
 End P.
